@@ -422,6 +422,7 @@ def rule_c01(an, res):
                 if k == 'INSERT':
                     for b in ops.find_bodies(top, m):
                         check_bind_update(res, prop, cm, roles, m, b)
+                check_splice_dest(res, prop, cm, roles, m, top)
                 if k in ('INSERT', 'FIND', 'ERASE') and not ops.find_bodies(top, m) and not top.loops:
                     res.ob('R-LOOKUP-PROV', ok=False)
                     V(res, prop, 'R-LOOKUP-PROV', cm, m.key(), 'path does not consult the index for its key', site_of_seg(top, m), '')
@@ -448,6 +449,52 @@ def rule_c01(an, res):
                             V(res, prop, 'R-PARTITION-INTEGRITY', cm, where_of(m, seg), 'slot list shape not established',
                               first_site(seg.effs('MOVE', 'PART', 'BIND', 'UNBIND'), seg, m), '; '.join(sim.unknown[:3]))
         check_no_rehash(an, res, prop, cm, roles)
+
+
+def check_splice_dest(res, prop, cm, roles, m, top):
+    """R-SPLICE-DEST: in a partitioned slot list a used node may be spliced to begin(), to the partition, or before another used
+    node - never to end(), which lies behind the free nodes unless the cache is full.  Destinations held in locals are traced to
+    every value the local is given (declaration and loop assignments)."""
+    if roles.part is None or roles.order is None:
+        return
+    order = THIS(roles.order)
+
+    def is_end(v):
+        if isinstance(v, tuple) and v[0] == 'q' and v[1] in ('end', 'cend') and v[2] == order:
+            return True
+        return False
+
+    def local_values(seg, name):
+        vals = []
+        s = seg
+        while s is not None:
+            for e in s.effects:
+                if e.kind == 'LOCAL' and isinstance(e.loc, tuple) and e.loc[0] == 'var' and e.loc[1] == name:
+                    vals.append(e.val)
+            if s.loop is not None and s.parent is not None:
+                for lp, segs in s.parent.loops:
+                    if lp is s.loop:
+                        for s2 in segs:
+                            for e in s2.effects:
+                                if e.kind == 'LOCAL' and isinstance(e.loc, tuple) and e.loc[0] == 'var' and e.loc[1] == name:
+                                    vals.append(e.val)
+            s = s.parent
+        return vals
+
+    for seg in top.all_segments():
+        for e in seg.effs('MOVE'):
+            d = e.dest
+            cands = [d]
+            if isinstance(d, tuple) and d[0] == 'lv':
+                cands = local_values(seg, d[1])
+            bad = [v for v in cands if is_end(v)]
+            full = seg.cond('FULL') is True
+            ok = not bad or full
+            res.ob('R-SPLICE-DEST', ok=ok)
+            if not ok:
+                V(res, prop, 'R-SPLICE-DEST', cm, where_of(m, seg), 'used node spliced to end() of the slot list (behind the free nodes)', e.site,
+                  'path [%s]: destination %s can be %s; unless the cache is full that is behind the free slots, so the partition '
+                  'later steps onto a live node' % (' '.join(seg.valuation()), show(d), show(bad[0])))
 
 
 def has_partition_loops(seg):
@@ -669,6 +716,8 @@ def rule_c08(an, res):
         for m in an.entry_points(cm):
             k = ops.kind_of(m)
             for top in method_segments(an, cm, roles, m, res):
+                if k != 'CLEAR':
+                    check_splice_dest(res, prop, cm, roles, m, top)
                 for seg in top.all_segments():
                     okf, _ = lift.feasible(seg)
                     if not okf:
